@@ -43,9 +43,12 @@ def in_dropped_macro(node):
     return any(_DROP_MACRO.match(m) for m in node.get("mac", []))
 
 
-def key_term(t, fn, T):
-    """Render a term for a semantic key: names of locals/params are replaced by their types."""
+def key_term(t, fn, T, depth=0):
+    """Render a term for a semantic key: names of locals/params are replaced by their types;
+    nesting beyond 4 levels is elided (keeps keys stable under edits of distant context)."""
     h = t[0]
+    if depth > 4:
+        return "_"
     if h == "param":
         return "<%s>" % fn.locals[t[1]].s if t[1] < len(fn.locals) else "<?>"
     if h == "var":
@@ -53,17 +56,17 @@ def key_term(t, fn, T):
     if h == "upvar":
         return "^%s" % t[1]
     if h == "field":
-        return "%s.%s" % (key_term(t[1], fn, T), t[2])
+        return "%s.%s" % (key_term(t[1], fn, T, depth + 1), t[2])
     if h == "downcast":
-        return "(%s as %s)" % (key_term(t[1], fn, T), t[2])
+        return "(%s as %s)" % (key_term(t[1], fn, T, depth + 1), t[2])
     if h == "index":
-        return "%s[%s]" % (key_term(t[1], fn, T), key_term(t[2], fn, T))
+        return "%s[%s]" % (key_term(t[1], fn, T, depth + 1), key_term(t[2], fn, T, depth + 1))
     if h == "call":
-        return "%s(%s)" % (t[1], ",".join(key_term(a, fn, T) for a in t[2]))
+        return "%s(%s)" % (t[1], ",".join(key_term(a, fn, T, depth + 1) for a in t[2]))
     if h == "icall":
-        return "icall(%s)" % ",".join(key_term(a, fn, T) for a in t[2])
+        return "icall(%s)" % ",".join(key_term(a, fn, T, depth + 1) for a in t[2])
     if h in ("await", "try", "residual", "discr"):
-        return "%s(%s)" % (h, key_term(t[1], fn, T))
+        return "%s(%s)" % (h, key_term(t[1], fn, T, depth + 1))
     if h == "const":
         return str(t[1])
     if h == "cstr":
@@ -71,15 +74,15 @@ def key_term(t, fn, T):
     if h in ("cdef", "cfn"):
         return t[1]
     if h == "bin":
-        return "%s(%s,%s)" % (t[1], key_term(t[2], fn, T), key_term(t[3], fn, T))
+        return "%s(%s,%s)" % (t[1], key_term(t[2], fn, T, depth + 1), key_term(t[3], fn, T, depth + 1))
     if h == "un":
-        return "%s(%s)" % (t[1], key_term(t[2], fn, T))
+        return "%s(%s)" % (t[1], key_term(t[2], fn, T, depth + 1))
     if h == "cast":
-        return "(%s as %s)" % (key_term(t[1], fn, T), t[2])
+        return "(%s as %s)" % (key_term(t[1], fn, T, depth + 1), t[2])
     if h == "agg":
         return "%s::%s{..}" % (t[1], t[2])
     if h in ("tuple", "array"):
-        return "(%s)" % ",".join(key_term(x, fn, T) for x in t[1])
+        return "(%s)" % ",".join(key_term(x, fn, T, depth + 1) for x in t[1])
     if h == "closure":
         return "closure"
     if h == "cunit":
